@@ -7,6 +7,7 @@ import (
 	"os"
 	"reflect"
 	"strconv"
+	"strings"
 
 	"github.com/zalf-rpm/Hermes2Go/hermes"
 )
@@ -47,6 +48,12 @@ func c04Cmd(args []string) {
 	sc := bufio.NewScanner(f)
 	sc.Buffer(make([]byte, 1<<20), 1<<20)
 	lineNo := 0
+	var session *hermes.HermesSession
+	defer func() {
+		if session != nil {
+			session.Close()
+		}
+	}()
 	for sc.Scan() {
 		line := sc.Text()
 		if len(line) == 0 {
@@ -74,7 +81,16 @@ func c04Cmd(args []string) {
 				}
 			}
 		}
-		res := runProject(*work, splitArgs(line))
+		// a line starting with "+" runs in the session (file pool) of the line before
+		shared := strings.HasPrefix(line, "+")
+		line = strings.TrimPrefix(line, "+")
+		if !shared || session == nil {
+			if session != nil {
+				session.Close()
+			}
+			session = hermes.NewHermesSession()
+		}
+		res := c04RunInSession(session, *work, splitArgs(line))
 		hermes.VerifProbe = nil
 		o := jobj{"line": lineNo, "success": res.Success, "err": res.Err}
 		if *probe {
@@ -135,4 +151,27 @@ func readVars(g *hermes.GlobalVarsMain, vars [][]interface{}) []string {
 		}
 	}
 	return out
+}
+
+// c04RunInSession is runProject of common.go on a session the caller keeps (several runs of one session share its file pool)
+func c04RunInSession(session *hermes.HermesSession, workdir string, args []string) runResult {
+	out := make(chan *hermes.RunReturn, 1)
+	logs := make(chan string, 1000)
+	done := make(chan struct{})
+	var collected []string
+	go func() {
+		for l := range logs {
+			collected = append(collected, l)
+		}
+		close(done)
+	}()
+	session.Run(workdir, args, "[0]", out, logs)
+	res := <-out
+	close(logs)
+	<-done
+	rr := runResult{Success: res.Success, Logs: collected}
+	if res.Err != nil {
+		rr.Err = res.Err.Error()
+	}
+	return rr
 }
